@@ -1,4 +1,4 @@
-import Vore.Spec.Grammar
+import Vore.Spec.ParserGrammar
 /-!
 # Vore.Lemmas.GrammarMono — the grammar-level parser does not depend on its fuel once it suffices
 
